@@ -21,8 +21,8 @@ What is proved here
   (`delete_at_end_panics`: the caller must guard, the editor does).
 * `move_only_cursor` — Left/Right/Home/End/`move_cursor`/`clamp_cursor`/`push_cursor`/`pop_cursor`
   leave the composition (symbols, gaps, selections) untouched; `move_cursor_values` gives the new cursor.
-* cursor stack: `stack_frame` (only push/pop touch it), `pop_restores`, `push_run_pop` (push, any
-  calls that are not push/pop, pop ⇒ the saved cursor clamped to the new length, stack as before).
+* cursor stack: `stack_frame` (only push/pop/clear touch it), `pop_restores`, `push_run_pop` (push, any
+  calls that are not push/pop/clear, pop ⇒ the saved cursor clamped to the new length, stack as before).
 * `remove_front_frame`, `replace_frame`, `gap_select_frame`, `clear_frame`.
 * totality where the editor relies on it: `insert_total`, `backspace_total`, `insert_gap_total`,
   `delete_ok_iff`, `replace_ok_iff`, `remove_front_ok_iff`.
@@ -117,16 +117,16 @@ theorem move_cursor_values (e : CompEditor) :
   unfold CompEditor.clampCursor CompEditor.len
   split <;> simp_all
 
-/-- only `push_cursor` / `pop_cursor` touch the cursor stack -/
+/-- only `push_cursor` / `pop_cursor` / `clear` touch the cursor stack (`clear` empties it since the F25 fix) -/
 theorem stack_frame (e : CompEditor) (op : CedOp) (e' : CompEditor) (h1 : op ≠ .pushCursor) (h2 : op ≠ .popCursor)
-    (h : e.apply op = .ok e') : e'.stack = e.stack := by
+    (h3 : op ≠ .clear) (h : e.apply op = .ok e') : e'.stack = e.stack := by
   cases op with
   | pushCursor => exact absurd rfl h1
   | popCursor => exact absurd rfl h2
   | clampCursor =>
     simp only [CompEditor.apply, CompEditor.clampCursor] at h; cases h; split <;> rfl
   | moveCursor n => cases h; rfl
-  | clear => cases h; rfl
+  | clear => exact absurd rfl h3
   | removeFront n => obtain ⟨c, _, rfl⟩ := withInner_ok h; rfl
   | removeAfterCursor => obtain ⟨c, _, rfl⟩ := withInner_ok h; rfl
   | removeBeforeCursor =>
@@ -166,9 +166,10 @@ theorem pop_empty (e : CompEditor) (h : e.stack = []) :
     e.popCursor.cursor = min e.cursor e.len ∧ e.popCursor.stack = [] ∧ e.popCursor.inner = e.inner := by
   simp [CompEditor.popCursor, h, CompEditor.len]
 
-/-- the stack along a list of calls none of which is push/pop -/
+/-- the stack along a list of calls none of which is push/pop/clear -/
 theorem stack_frame_run (ops : List CedOp) :
-    ∀ (e e' : CompEditor), (∀ op ∈ ops, op ≠ .pushCursor ∧ op ≠ .popCursor) → e.run ops = .ok e' → e'.stack = e.stack := by
+    ∀ (e e' : CompEditor), (∀ op ∈ ops, op ≠ .pushCursor ∧ op ≠ .popCursor ∧ op ≠ .clear) → e.run ops = .ok e' →
+      e'.stack = e.stack := by
   induction ops with
   | nil => intro e e' _ h; simp only [CompEditor.run] at h; cases h; rfl
   | cons op ops ih =>
@@ -177,15 +178,15 @@ theorem stack_frame_run (ops : List CedOp) :
     split at h
     · next e1 h1 =>
       have a := hn op (List.mem_cons_self ..)
-      rw [ih e1 e' (fun o ho => hn o (List.mem_cons_of_mem _ ho)) h, stack_frame e op e1 a.1 a.2 h1]
+      rw [ih e1 e' (fun o ho => hn o (List.mem_cons_of_mem _ ho)) h, stack_frame e op e1 a.1 a.2.1 a.2.2 h1]
     · cases h
     · cases h
 
 /-- **cursor save / restore around candidate selection**: `push_cursor`, any calls other than
-    push/pop (edits included), `pop_cursor` ⇒ the saved cursor, clamped to the new length; the
+    push/pop/clear (edits included), `pop_cursor` ⇒ the saved cursor, clamped to the new length; the
     stack is as before -/
 theorem push_run_pop (e e1 : CompEditor) (ops : List CedOp)
-    (hn : ∀ op ∈ ops, op ≠ .pushCursor ∧ op ≠ .popCursor) (h : e.pushCursor.run ops = .ok e1) :
+    (hn : ∀ op ∈ ops, op ≠ .pushCursor ∧ op ≠ .popCursor ∧ op ≠ .clear) (h : e.pushCursor.run ops = .ok e1) :
     e1.popCursor.cursor = min e.cursor e1.len ∧ e1.popCursor.stack = e.stack ∧ e1.popCursor.inner = e1.inner := by
   have hs : e1.stack = e.stack ++ [e.cursor] := stack_frame_run ops e.pushCursor e1 hn h
   exact pop_restores e1 e.stack e.cursor hs
@@ -222,9 +223,9 @@ theorem gap_select_frame (e : CompEditor) (op : CedOp) (e' : CompEditor)
     · cases h
     · obtain ⟨c, hc, rfl⟩ := withInner_ok h; exact ⟨pushSelection_symbols hc, rfl, rfl⟩
 
-/-- `clear` empties the buffer and resets the cursor; the cursor stack is kept (as coded) -/
+/-- `clear` empties the buffer, resets the cursor and drops the saved cursors (F25 fix, see Props/C17.lean) -/
 theorem clear_frame (e : CompEditor) :
-    e.clear.symbols = [] ∧ e.clear.cursor = 0 ∧ e.clear.stack = e.stack ∧ e.clear.inner.selections = [] := by
+    e.clear.symbols = [] ∧ e.clear.cursor = 0 ∧ e.clear.stack = [] ∧ e.clear.inner.selections = [] := by
   simp [CompEditor.clear, CompEditor.symbols, Composition.clear]
 
 /-! ## The invariant -/
